@@ -75,8 +75,8 @@ func scenarios(quick bool) []scenario {
 	add(true, scenario{"q5 back-filled sessions sharing data files (later range written first), T+i64", cz.Config{GridN: 5, AutoCommit: true, Channels: []cesium.ChannelKey{cz.T, cz.I64}, GC: 0.0000001, FileCap: 1000}, backfill, false, 2})
 	add(false, scenario{"t6 back-filled sessions sharing data files, T+i64+str", cz.Config{GridN: 6, AutoCommit: true, Channels: g0, GC: 0.0000001, FileCap: 1000}, backfill, true, 3})
 	add(false, scenario{"t1 one domain of 6 samples, T+i64+str", cz.Config{GridN: 6, AutoCommit: true, Channels: g0, GC: 0.0000001, FileCap: 1000}, six, false, 3})
-	add(false, scenario{"t2 rolled-over contiguous domains (tiny files), T+i64+str", cz.Config{GridN: 6, FileCap: 1, AutoCommit: true, Channels: g0, Persist: always, GC: 0.0000001}, six, false, 3})
-	add(false, scenario{"t3 data domain spanning several index domains, T+u8+i64", cz.Config{GridN: 6, FileCap: 10, AutoCommit: true, Channels: g0u8, Persist: always, GC: 0.2}, six, false, 3})
+	add(false, scenario{"t2 rolled-over contiguous domains (tiny files), T+i64+str", cz.Config{GridN: 6, FileCap: 1, AutoCommit: true, Channels: g0, Persist: always, GC: 0.0000001, FindingTag: "rolled-over-contiguous-domains"}, six, false, 3})
+	add(false, scenario{"t3 data domain spanning several index domains, T+u8+i64", cz.Config{GridN: 6, FileCap: 10, AutoCommit: true, Channels: g0u8, Persist: always, GC: 0.2, FindingTag: "rolled-over-contiguous-domains"}, six, false, 3})
 	add(false, scenario{"t4 gapped sessions + new sessions into holes, T+i64+str", cz.Config{GridN: 6, AutoCommit: true, Channels: g0, GC: 0.0000001, FileCap: 1000}, gap, true, 4})
 	add(false, scenario{"t5 one domain, GC threshold 1 (never)", cz.Config{GridN: 5, AutoCommit: true, Channels: g0, GC: 1, FileCap: 1000}, one, false, 3})
 	return out
